@@ -303,6 +303,9 @@ func (l *listGenerator) zapMarshaler(
 	fieldValue string,
 ) (string, error) {
 	name := zapperName(g, spec)
+	if zapperDeclared(g, name) {
+		return fmt.Sprintf("(%v)(%v)", name, fieldValue), nil
+	}
 	if err := g.EnsureDeclared(
 		`
 			<$zapcore := import "go.uber.org/zap/zapcore">
@@ -331,5 +334,6 @@ func (l *listGenerator) zapMarshaler(
 	); err != nil {
 		return "", err
 	}
+	markZapperDeclared(g, name)
 	return fmt.Sprintf("(%v)(%v)", name, fieldValue), nil
 }
